@@ -5,8 +5,8 @@ export GOFLAGS=-mod=mod GOPROXY=off GOSUMDB=off GOTOOLCHAIN=local
 git -C /repo worktree remove --force $WT 2>/dev/null
 git -C /repo worktree add -q --detach $WT HEAD || exit 1
 cp /verif/seeded/$ID/demo_test.go $WT/$DIR/zz_demo_test.go
-( cd $WT && go test -vet=off -count=1 -run 'Demo|C[0-9]+M[0-9]|TestM[0-9]|TestObs' ./$DIR/ >/tmp/cm-$ID.clean 2>&1; echo "clean: exit=$?" )
+( cd $WT && go test -vet=off -count=1 -run 'Demo|C[0-9]+M[0-9]|TestM[0-9]|TestObs|Test' ./$DIR/ >/tmp/cm-$ID.clean 2>&1; echo "clean: exit=$?" )
 ( cd $WT && git apply /verif/seeded/$ID/patch.diff && go build ./... && echo "patched: build ok" )
-( cd $WT && go test -vet=off -count=1 -run 'Demo|C[0-9]+M[0-9]|TestM[0-9]|TestObs' ./$DIR/ >/tmp/cm-$ID.patched 2>&1; echo "patched: demo exit=$?" )
+( cd $WT && go test -vet=off -count=1 -run 'Demo|C[0-9]+M[0-9]|TestM[0-9]|TestObs|Test' ./$DIR/ >/tmp/cm-$ID.patched 2>&1; echo "patched: demo exit=$?" )
 ( cd $WT && rm $DIR/zz_demo_test.go && go test -vet=off -count=1 ./$DIR/ >/tmp/cm-$ID.pkg 2>&1; echo "patched: package tests exit=$?" )
 git -C /repo worktree remove --force $WT
